@@ -19,6 +19,7 @@ import (
 	"io"
 	"math/rand"
 	"net/http"
+	"os"
 	"strconv"
 	"strings"
 	"sync"
@@ -437,7 +438,7 @@ func c11Random(rng *rand.Rand, depth int) *c11Tree {
 }
 
 var c11Scripts = []string{
-	"b", "e", "e ; e ; e", "s", "z ; e", "b ; s ; e ; s", "o1 ; s ; e", "u2 ; s ; z", "o1 ; u2 ; s ; s", "o1 ; u2 ; z ; b ; y",
+	"o1 ; u1 ; s", "b", "e", "e ; e ; e", "s", "z ; e", "b ; s ; e ; s", "o1 ; s ; e", "u2 ; s ; z", "o1 ; u2 ; s ; s", "o1 ; u2 ; z ; b ; y",
 	"o3 ; u3 ; s", "y ; e", "o2 ; u1 ; s ; o0 ; s ; u0 ; s", "o1 ; y ; s",
 }
 
@@ -483,6 +484,9 @@ func c11RandomScript(rng *rand.Rand) string {
 
 // a script is safe for a tree if no Subscribe happens with the same unbuffered handler on both sides
 func c11Safe(t *c11Tree, script string) bool {
+	if os.Getenv("VERIF_C11_SAMEHANDLER") != "" {
+		return true // for a library in which a handler may post to itself (see proposed-fix-samehandler.patch)
+	}
 	ob, sub := 0, 0
 	var root func(t *c11Tree)
 	root = func(t *c11Tree) {
